@@ -187,6 +187,31 @@ def source_cases(rng, tier):
     return cases
 
 
+def syntax_family_cases(rng, tier):
+    """enumerative family over object bodies and comprehension forms: every field separator on computed /
+    identifier / string / method fields, with locals and asserts before and after, with and without a
+    trailing `for` / `if` spec — well-formed or not, the answer must be a value or a diagnosed error"""
+    seps = [':', '::', ':::', '+:', '+::', '+:::']
+    names = ['[k]', 'a', '"s"', '[null]', 'm(x)', '["a" + k]']
+    pres = ['', 'local v = 1, ', 'assert true, ', 'b: 2, ']
+    posts = ['', ', local w = 2', ', assert true', ', c: 3', ',']
+    tails = ['', ' for k in ["x", "y"]', ' for k in ["x"] if k != "q"', ' for k in [] for j in [1]', ' if true', ' for k in']
+    progs = []
+    for sep in seps:
+        for nm in names:
+            for pre in pres:
+                for post in posts:
+                    for tail in tails:
+                        progs.append('{ %s%s%s 1%s%s }' % (pre, nm, sep, post, tail))
+    if tier == 'quick':
+        progs = rng.sample(progs, 1200)
+    # array comprehension / slice / call oddities
+    progs += ['[x for x in [1] if]', '[x for]', '[1 for x in [1],]', '[x, for x in [1]]', 'a[::]', 'a[:::]', '[1][0:1:1:1]', 'f(x=1, 2)', 'f(,)',
+              'local = 1; 2', 'function(x,) x', 'function(x=) x', '{ a: 1 }{ b: 2 }{', 'x tailstrict', 'f() tailstrict tailstrict', 'e in super.f', '"a" in super',
+              'import "a" + "b"', 'importstr |||\n a\n|||', 'if then else', 'assert ; 1', 'error', '- - -', '!~-+1', '1 < 2 < 3', 'a.b.c.', '$.a', 'self.a', 'super']
+    return [('y%d' % i, 'eval', ['stack=32', hxl(list(p.encode()))], {'src': p.encode()}) for i, p in enumerate(progs)]
+
+
 def run_cases(run, impl_exe, cases, label, shards, mem):
     res = vlib.run_sharded(impl_exe, [vlib.impl_line(c) for c in cases], timeout=300, shards=shards,
                            env={'VERIF_PANIC_MSG': '1'}, mem=mem)
@@ -390,6 +415,7 @@ def check(run):
     run.extra['std_members'] = len(names)
     front_stream.run_front_stream(run, impl_exe, vlib.rng_for(run.seed, ID + '-front'), run.tier)   # composed front-end model vs load_source, from bytes
     run_cases(run, impl_exe, source_cases(rng, run.tier), 'src', shards=vlib.NCPU, mem=3 << 30)
+    run_cases(run, impl_exe, syntax_family_cases(rng, run.tier), 'syn', shards=vlib.NCPU, mem=3 << 30)
     run_cases(run, impl_exe, matrix_cases(rng, ar, run.tier), 'std', shards=8, mem=3 << 30)
     cli_stream(run, cli, rng, run.tier)
     pipeline_stream.run_pipeline_stream(run, impl_exe, vlib.rng_for(run.seed, ID + '-pipeline'), run.tier)   # whole pipeline from bytes: Front + RefEval vs eval
